@@ -30,18 +30,24 @@ def make_ctx(spec, binding, need_fo=False):
         sc = nasim.load_scenario(shipped_path(spec["name"]), name=spec["name"])
         return Ctx(spec, binding, seam=sm, need_fo=need_fo, scenario=sc)
     if binding == "generated":
-        name, seed = spec["gen"]
-        sc = nasim.make_benchmark_scenario(name, seed=seed)
-        full = spec_from_scenario(sc, name=spec["name"])
-        full["gen"] = [name, seed]
+        if "genparams" in spec:
+            sc = nasim.generate_scenario(**dict(spec["genparams"]))
+            full = spec_from_scenario(sc, name=spec["name"])
+            full["genparams"] = dict(spec["genparams"])
+        else:
+            name, seed = spec["gen"]
+            sc = nasim.make_benchmark_scenario(name, seed=seed)
+            full = spec_from_scenario(sc, name=spec["name"])
+            full["gen"] = [name, seed]
         return Ctx(full, binding, seam=sm, need_fo=need_fo, scenario=sc)
     return Ctx(spec, binding, seam=sm, need_fo=need_fo)
 
 
 def entry_to_json(entry):
     spec, binding = entry
-    if binding == "generated" and "subnets" not in spec:
-        return {"spec": dict(spec), "binding": binding}
+    if binding == "generated":
+        keep = {k: spec[k] for k in ("name", "gen", "genparams", "_max_states") if k in spec}
+        return {"spec": keep, "binding": binding}
     return {"spec": spec_to_json(spec), "binding": binding}
 
 
